@@ -566,7 +566,7 @@ def check(prop, tier, seed):
             undecided('Kani harness undecided: ' + '; '.join('%s: %s' % (k['harness'], k['detail'][-200:]) for k in und))
         for k in kani:
             if k['status'] == 'fail':
-                violations.append({'kind': 'semantic', 'message': 'Kani FAILURE: ' + k['detail'][:300], 'fn': 'NodeId::parse' if 'parse' in k['harness'] else k['harness'],
+                violations.append({'kind': 'semantic', 'message': 'Kani FAILURE: ' + k['detail'][:300], 'fn': 'NodeId::parse' if 'parse' in k['harness'] else ('node_id::serde_hex_prfx::deserialize' if 'serde' in k['harness'] else k['harness']),
                                    'src': 'src/node_id.rs', 'module': 'code::node_id', 'line': None, 'clause_line': None, 'clause': k['what'],
                                    'labels': ['%s.kani.%s' % (prop, k['harness'].split('::')[-1])], 'rendered': k['detail'], 'ext': [], 'kani': k})
 
@@ -636,7 +636,7 @@ def check(prop, tier, seed):
         'normalisation_rules_applied': sum(len(x['rules']) for x in res['extract_log'].get('rules', [])),
         'dropped_from_extraction': res['extract_log'].get('dropped', []),
         'shared_run_cached': bool(res.get('cached')),
-        'bounded': ['Kani harness %s: %s' % (k['harness'], k['what']) for k in kani if 'parse' in k['harness']],
+        'bounded': ['Kani harness %s: %s' % (k['harness'], k['what']) for k in kani if 'parse' in k['harness'] or 'serde' in k['harness']],
         'assumption_crosschecks': crosschecks,
         'kani': [{'harness': k['harness'], 'status': k['status'], 'checks': k.get('checks'), 'wall_s': round(k['wall_s'], 1), 'cmd': k['cmd'], 'what': k['what']} for k in kani],
         'explanation': 'Every clause labelled [%s.*] in /verif/contracts is injected into the text extracted from /repo/src on this run; '
